@@ -625,6 +625,7 @@ class Bus(ContainerBase, StoreClientMixin): # not a ContainerOperand
                 index=self._series._index,
                 dtype=object,
                 own_index=True,
+                name=self._series._name, # loading a Frame must not drop the name of the Bus
                 )
         self._loaded_all = self._loaded.all()
 
